@@ -152,6 +152,13 @@ func tEq(a, b Term) Term {
 }
 
 func tSelect(arr, idx Term) Term {
+	// select(store(a, i, v), i) = v (syntactic)
+	if strings.HasPrefix(arr.S, "(store ") {
+		if ch, ok := sexprChildren(arr.S); ok && len(ch) == 4 && ch[2] == idx.S {
+			elem := strings.TrimSuffix(strings.TrimPrefix(arr.Sort, "(Array Int "), ")")
+			return Term{ch[3], elem}
+		}
+	}
 	// (Array Int X) -> X
 	elem := strings.TrimSuffix(strings.TrimPrefix(arr.Sort, "(Array Int "), ")")
 	return app(elem, "select", arr, idx)
